@@ -182,6 +182,9 @@ def aggregate(prop, mod, args, seed, results, open_f, findings, t0):
             continue
         reps = {r["n"]: r for r in b["replays"] if r}
         for p in a["paths"]:
+            for note in p.get("notes", []) or []:
+                nn = st.setdefault("notes", {})
+                nn[note] = nn.get(note, 0) + 1
             total_dec += p.get("decisions", 0)
             if p.get("pins"):
                 st["pinned_paths"] += 1
